@@ -4,7 +4,7 @@ the argument shapes of the protocol; everything else would let two chains share 
 import re
 
 from core import Finding, RuleResult, view
-from prov import Prov
+from prov import Prov, expand_var
 
 
 def make(pid):
@@ -35,7 +35,7 @@ def make(pid):
                         continue
                     ok = False
                     for a in allowed:
-                        if all(int(i) < len(args) and re.search(rxa, args[int(i)]) for i, rxa in a.get("args", {}).items()):
+                        if all(int(i) < len(args) and all(re.search(rxa, x) for x in expand_var(f, args[int(i)], pr)) for i, rxa in a.get("args", {}).items()):
                             ok = True
                     if ok:
                         res.ok({"row": row["id"], "caller": f.path, "args": [x[:50] for x in args[1:3]]}, nontrivial=True)
